@@ -10,6 +10,7 @@ import (
 	"os"
 	"os/exec"
 	"path/filepath"
+	"runtime/pprof"
 	"sort"
 	"strings"
 	"time"
@@ -171,7 +172,14 @@ func main() {
 	dethash := flag.Int("dethash", 0, "determinism mode: print 'index hash seq' for this many runs and exit")
 	replayTest := flag.Int("replaytest", 0, "determinism mode: record N runs, replay each by name, compare event-log hashes")
 	skip := flag.Int("skip", 0, "determinism mode: run this many other runs first (batch-position independence)")
+	prof := flag.String("cpuprofile", "", "write a CPU profile (development)")
 	flag.Parse()
+	if *prof != "" {
+		if f, err := os.Create(*prof); err == nil {
+			pprof.StartCPUProfile(f)
+			defer pprof.StopCPUProfile()
+		}
+	}
 
 	if *merge != "" {
 		mergeHashes(*merge)
